@@ -249,7 +249,8 @@ func (z *zoneGen) service(qname string, host string) {
 			z.shape["target"] = true
 			// a named target - which may be the very host the record is about (zone editors write the
 			// owner name out instead of ".")
-			h.Target = []string{"svc1.example.net", "svc2.example.net", "unresolvable.example.net", host}[r.IntN(4)]
+			// (a target name is looked up, and its addresses are filed, under the spelling the record has)
+			h.Target = []string{"svc1.example.net", "svc2.example.net", "unresolvable.example.net", host, "Svc3.Example.NET"}[r.IntN(5)]
 			if h.Target == host {
 				z.shape["target-self"] = true
 			}
